@@ -15,6 +15,13 @@ A node (class N) is
                 ('scope', user_requested) ('lscope', user_requested) ('tograph', recursive)
                 ('artifact',)  autograph_artifact(<a private copy of f>)
                 ('inner',)     an inner function handed out by converted code (to_graph(inner_factory)(f))
+                ('nested', user_requested, recursive, deep)
+                               inner(...), inner = a def nested (deep: two levels down) in an entity converted through
+                               convert(recursive, user_requested) and handed out as a closure whose body is `return f(n)`
+                               (nested_factory / nested_factory2 below); it is called wherever the node is called: from
+                               the converted entity's caller, from a do_not_convert region, a with-block, plain code
+                ('nestedg', recursive, deep)
+                               the same, the entity converted through to_graph(entity, recursive)
     outer     wrappers stacked around the callable `kind` yields, outermost first (decorators on decorators):
               the same kinds except plain / tograph; their context arguments are evaluated when the callable
               is built, i.e. at the call site, like decorators evaluated at definition time
@@ -154,6 +161,37 @@ def inner_factory(fn):
   return inner
 
 
+def nested_factory(fn):
+  def inner(n):
+    return fn(n)
+  return inner
+
+
+def nested_factory2(fn):
+  def mid():
+    def inner(n):
+      return fn(n)
+    return inner
+  return mid()
+
+
+def _nested_closure(rec, k, fn):
+    fac = nested_factory2 if k[-1] else nested_factory
+    if k[0] == 'nestedg':
+        g = api.to_graph(fac, recursive=k[1])(fn)
+    else:
+        conv = api.convert(recursive=k[2], user_requested=k[1])(fac)
+        # convert() runs the entity unconverted where the status is DISABLED: the entity is converted (and hands
+        # out its inner function) under a context of the harness' own, whatever the call site's status is
+        with ag_ctx.ControlStatusCtx(status=ag_ctx.Status.UNSPECIFIED):
+            g = conv(fn)
+    if not api.is_autograph_artifact(g):
+        msg = 'RuntimeError: the entity %s was not converted (its inner function is not marked as converted code)' % fac.__name__
+        rec.errors.append(msg)
+        raise RuntimeError(msg)
+    return g
+
+
 def make_callable(rec, ch):
     """The callable through which the parent invokes node `ch` (called as callable(ch))."""
     g = apply_kind(rec, ch.kind, body_dyn if ch.dyn else body, ch.dyn)
@@ -171,6 +209,8 @@ def apply_kind(rec, k, fn, dyn):
         return api.autograph_artifact(fn)
     if k[0] == 'inner':
         return api.to_graph(inner_factory)(fn)
+    if k[0] in ('nested', 'nestedg'):
+        return _nested_closure(rec, k, fn)
     if k[0] == 'dnc':
         return api.do_not_convert(fn)
     if k[0] == 'unspec':
